@@ -22,7 +22,8 @@ RULE = ("Hypothesis draws scalar recipes biased to where a degree claim can be w
         "the polynomial fragment, otherwise vanishing (d+1)-th forward differences along 3 rational lines "
         "(exact Fractions for rational recipes, float with a 1e-6 relative threshold otherwise).  "
         "Non-trivial = finite degree reported, >= 1 variable, >= 2 operator/reduction nodes."
-        '  Also: sub-expressions may be classified before the whole (cache state), parameters are updated after the first classification, and reductions over heterogeneous vector expressions (element degrees differ, highest not first) are generated on purpose.')
+        '  Also: sub-expressions may be classified before the whole (cache state), parameters are updated after the first classification, and reductions over heterogeneous vector expressions (element degrees differ, highest not first) are generated on purpose.'
+        ' Also (round 6): towers of constant powers (b ** p) ** q whose exponents multiply to an integer ((x**2)**0.5, (x**0.5)**2, (x**6)**0.5 ...).')
 BUDGET = {"quick": {"workers": 16, "examples": 600}, "thorough": {"workers": 16, "examples": 10000}}
 ASSUMPTIONS = ["a non-polynomial that is polynomial along three random rational lines is not detected (measure zero)"]
 MANIFEST = {
